@@ -477,6 +477,51 @@ pub fn hidden_move(rng: &mut Rng) -> T {
     T::Player(first, 0, top)
 }
 
+/// A move of one player hidden from the other, a separate coin behind each action, then the other
+/// player's guess in ONE infoset that straddles all the coins.  With two or three threads the
+/// frontier walk of the multi-threaded solvers stops while one of the coins is still in its queue
+/// and a sibling has already been expanded: chance nodes are handed to the pool as tasks, and the
+/// straddling infoset has nodes inside and outside of them.
+pub fn coins_behind_choice(rng: &mut Rng) -> T {
+    let first = rng.chance(0.5);
+    let k0 = rng.range(2, 3) as u32;
+    let ways = *rng.pick(&[3u32, 5, 4]);
+    let guesses = rng.range(2, 3) as u32;
+    let mut top = Vec::new();
+    for a in 0..k0 {
+        let outs = (0..ways)
+            .map(|_| {
+                let guess = T::Player(!first, 0, (0..guesses).map(|c| (c, T::Term((rng.below(17) as f64 - 8.0) / 4.0))).collect());
+                (1.0 + rng.below(3) as f64, guess)
+            })
+            .collect();
+        top.push((a, T::Chance(None, outs)));
+    }
+    T::Player(first, 0, top)
+}
+
+/// The root player's first action ends the game at once; every other action leads to a small
+/// simultaneous-move subgame.  With two threads the frontier walk of the multi-threaded solvers
+/// stops with the terminal still in its queue: a leaf is handed to the pool as a task (and its
+/// payoff cached), in either player's pass.
+pub fn early_exit(rng: &mut Rng) -> T {
+    let root_one = rng.chance(0.5);
+    let others = rng.range(2, 3) as u32;
+    let (rows, cols) = *rng.pick(&[(2u32, 3u32), (2, 2), (3, 2)]);
+    let mut top = vec![(0u32, T::Term((rng.below(9) as f64 - 4.0) / 2.0))];
+    for a in 0..others {
+        let sub = T::Player(
+            !root_one,
+            a,
+            (0..rows)
+                .map(|r| (r, T::Player(root_one, 1 + a, (0..cols).map(|c| (c, T::Term((rng.below(17) as f64 - 8.0) / 4.0))).collect())))
+                .collect(),
+        );
+        top.push((a + 1, sub));
+    }
+    T::Player(root_one, 0, top)
+}
+
 /// a chance infoset with `n` outcomes met twice on one path: almost all weight on the last three
 /// outcomes, which lead to a second node of the same infoset (same weights); below it a decision of
 /// player one whose infoset tells whether the *shared* outcome was followed.  Wide enough tables
@@ -620,10 +665,12 @@ pub fn gen_small_raw(rng: &mut Rng, budget: &mut i64, depth: u32) -> T {
         _ => 3,
     };
     let start = rng.below(2) as u32;
-    let dup = rng.chance(0.04);
+    let dup = rng.chance(0.05);
+    let sep = rng.chance(0.5);
     let acts = (0..k)
         .map(|a| {
-            let name = if dup { start } else { start + a };
+            // all names equal, or (with three actions) the first name again at the end
+            let name = if dup && !(sep && k >= 3 && a == 1) { start } else { start + a };
             (name, gen_small_raw(rng, budget, depth + 1))
         })
         .collect();
@@ -754,7 +801,18 @@ pub fn plant_kind(rng: &mut Rng, t: &T, kind: u64) -> (T, &'static str) {
                 applied = true;
             }
             (4, T::Player(_, _, a)) if a.len() >= 2 => {
-                a[1].0 = a[0].0;
+                // a repeated name at any two positions: adjacent ones, the two ends, or (by adding an
+                // action) separated by another name: [a, b, a]
+                if a.len() == 2 && r2.chance(0.5) {
+                    let extra = (a[0].0, a[r2.below(2) as usize].1.clone());
+                    a.push(extra);
+                } else if a.len() >= 3 && r2.chance(0.7) {
+                    let j = r2.below(a.len() as u64 - 2) as usize;
+                    let k = j + 2 + r2.below((a.len() - j - 2) as u64) as usize;
+                    a[k].0 = a[j].0;
+                } else {
+                    a[1].0 = a[0].0;
+                }
                 applied = true;
             }
             (5, T::Chance(_, o)) if o.len() >= 2 => {
